@@ -172,7 +172,17 @@ RULE = (
     "shells along +-z, +-x, y, the Cartesian origin, the centre itself (finite); grids with 2..5 radial points in the correspondence; [13] additivity off-centre / molecular (bvp, bound 1e-4 per unit charge, observed 3e-7), "
     "ivp additivity 5e-4 per unit charge (observed 8.3e-5: its accuracy level), molecular amplitude homogeneity 1e-5..1e3 (observed <= 0.1 of the bound), robust split2=True on 2-atom molecules with remove_large_pts in 40..100 or 1e6, "
     "include_origin=False and the basis [0.3, 1, 3, 9, 27] (observed <= 0.55 of the threshold; remove_large_pts 25: up to 1.5, 10: up to 11 -- outside; with the DEFAULT 20-exponent basis 0.04 .. 2.0 and "
-    "RuntimeError from scipy's nnls in ~10 % of random molecules -- outside, reported), robust split2 with the density inside core model + basis: exact to 1e-6 (observed 2e-9). Non-trivial = a case with at least 4 radial "
+    "RuntimeError from scipy's nnls in ~10 % of random molecules -- outside, reported), robust split2 with the density inside core model + basis: exact to 1e-6 (observed 2e-9). "
+    "Round 4 (AGENT_ROUND4 classes 14-20): [19] the returned potentials at 8-10 log-spaced distances in 1e-12 .. 1e-6 (molecular: 1e-9 .. 1e-6) from every atomic centre, random directions and along the axes, off-origin "
+    "and rotated atomic grids, 2-3-atom molecular grids, bvp and robust (both splits): within 1e-2 Q of the analytic potential and within 1e-3 Q of the value at 1e-5 in the same direction (pristine: include_origin=True flat to "
+    "1e-11, <= 3e-3 of the tolerance, 4e-2 at 1e-12; include_origin=False carries the documented r_1 V(0)/r, which is added to the tolerance -- molecular cases use a first radial point of 1e-10 and distances 1e-9 .. 1e-6 (1e-11: 'didn't converge' for 7 % of random molecules); molecular grids with the origin in "
+    "the mesh are accurate but take 25..440 s; the initial-value solver is off by 7..60 x at 1e-5 and ~1/r below -- documented difficulty at the origin, not asserted); interpolate_laplacian with an explicit cutoff in 1e-10..1e-7 and "
+    "points log-spaced over 1e-12..1e-6 on both sides of it; [14] radial points / weights held by the grid as read-only, strided and negative-stride views, centre as int64 / float32 / read-only / strided, atcoords as list / float32 / "
+    "Fortran / read-only / negative-stride / row of a larger array, atnums as list / int32 / float64 / uint8, aim_weights of a one-atom MolGrid as int64 / bool / float32 / read-only / strided; [15] omitted vs None vs explicit "
+    "defaults for every option, alphas_basis given with split2=False, positional vs keyword; [16] densities as views into larger caller arrays used for several solves (bytes around unchanged), the module's default basis object "
+    "passed explicitly, the grid's own points as evaluation points; [17] complex densities: ivp and interpolate_laplacian are linear over C (asserted), bvp discards the imaginary part with a ComplexWarning (reported, not asserted); "
+    "[18] eleven kinds of rejected calls leave no trace on the grid object; [20] 1 and 2 evaluation points, molecular grids of unequal atomic sizes, heteronuclear core models of different lengths (exact). "
+    "The failing-input search after a broken obligation is ordered (first replicate of every kind, cheapest first) and capped at 200 s / 3 concrete failures. Non-trivial = a case with at least 4 radial "
     "problems (l_max//2 >= 1) and a non-zero density"
 )
 TRUSTED_BASE = [
@@ -245,6 +255,25 @@ def _points(spec, centers, r_last):
 
 def run(spec):
     """-> (observed, threshold, detail)"""
+    try:
+        return _run_inner(spec)
+    except RuntimeError as e:
+        # scipy.optimize.nnls gives up ('Maximum number of iterations reached', its default budget is 3 x number of exponents) inside the greedy fit of the second
+        # split for ~5-10 % of random two-atom molecules, with the default and with compact bases alike (pinned tree; witness in the round-4 report): no answer is
+        # returned, so there is nothing to compare -- recorded as an observation for the lead, not asserted (any other exception propagates)
+        if 'Maximum number of iterations' in str(e) and spec.get('kind') in ('robust', 'near') and (spec.get('split2') or spec.get('kind') == 'robust'):
+            return 0.0, 1.0, 'scipy nnls stopped with "Maximum number of iterations reached" inside the second split: no answer returned (observation, not asserted)'
+        raise
+    except ValueError as e:
+        # amplitude homogeneity: solve_ode_bvp gives up ('didn't converge', absolute tolerance of solve_bvp) for large amplitudes -- DESIGN 8.3 records |a| >= 1e4 for
+        # spherical densities; with l > 0 components it already happens at |a| Q ~ 400 (a = 290, c = 1.398 on Trapezoidal(62) o Becke(1e-6, 1.959), degree 11, pinned tree).
+        # A rejection, not a wrong value: accepted for |a| >= 100 only
+        if spec.get('kind') == 'homog' and abs(spec.get('a', 0.0)) >= 100.0 and "didn't converge" in str(e):
+            return 0.0, 1.0, "solve_ode_bvp stopped with 'didn't converge' at a large amplitude (documented rejection, not a value)"
+        raise
+
+
+def _run_inner(spec):
     import grid
     from grid.molgrid import MolGrid
     from grid.becke import BeckeWeights
@@ -325,6 +354,47 @@ def run(spec):
         if not spec['gauss']:
             return err, spec['exact_core_atol'], 'robust solver on its own core model vs analytic core potential'
         return err, spec['atol_unit'] * sum(abs(c) for c, _, _ in g), 'robust solver vs analytic potential'
+    if kind == 'near':
+        # round 4, class 19: evaluation points at distances 1e-12 .. 1e-6 from every atomic centre (log-spaced; random directions and along the axes),
+        # where the interpolant divides the spline of u = r V by r and the harmonics get the angles of a tiny vector.  Against the analytic potential and
+        # for continuity with the value at 1e-5 in the same direction.  With include_origin=False the documented cost of the forced u(r_1) = 0
+        # (r_1 V(0) / r, see RULE) is part of the tolerance: + 2 r_1 Vmax / d, Vmax = sum |c_i| 2 sqrt(a_i / pi).
+        g = [tuple(x) for x in spec['gauss']]
+        if spec.get('route') == 'robust':
+            with open(grid.__path__[0] + '/data/atomic_gauss_params.json') as f:
+                table = json.load(f)
+            core = []
+            for sym, c in zip(spec['symbols'], centers):
+                core += [(ck, ak, c) for ck, ak in zip(table[sym]['coeffs_s'], table[sym]['alphas_s'])]
+            g = core + g
+            V = solve_poisson_robust(mg, _rho(mg.points, g), inv, np.array(spec['atnums']), np.array(centers), split2=spec.get('split2', False),
+                                     alphas_basis=None if spec.get('alphas_basis') is None else np.array(spec['alphas_basis']), **kw)
+        else:
+            V = solve_poisson_bvp(mg, _rho(mg.points, g), inv, **kw)
+        rng = np.random.default_rng(spec['pseed'])
+        lo, hi, k = spec['dlo'], spec['dhi'], spec.get('ndist', 10)
+        q = sum(abs(c) for c, _, _ in g)
+        vmax = sum(abs(c) * 2.0 * np.sqrt(a / np.pi) for c, a, _ in g)
+        r1 = 0.0 if kw.get('include_origin', True) else float(np.min(radial.points))
+        worst, where = 0.0, None
+        for c in centers:
+            d = np.exp(rng.uniform(np.log(lo), np.log(hi), size=k))
+            d[0], d[-1] = lo, hi
+            u = rng.normal(size=(k, 3))
+            u /= np.linalg.norm(u, axis=1)[:, None]
+            ax = np.eye(3)[rng.integers(0, 3, size=k)] * rng.choice([-1.0, 1.0], size=k)[:, None]
+            for dirs in (u, ax):
+                p, pref = c + dirs * d[:, None], c + dirs * 1e-5
+                dd = np.linalg.norm(p - c, axis=1)          # the distance actually realised in double precision
+                v, vref = V(p), V(pref)
+                tol = spec['atol_unit'] * q + 2.0 * r1 * vmax / dd
+                e1 = np.abs(v - _ref(p, g)) / tol
+                e2 = np.abs(v - vref) / (0.1 * spec['atol_unit'] * q + 2.0 * r1 * vmax / dd)
+                e = np.where(np.isfinite(v), np.maximum(e1, e2), np.inf)
+                j = int(np.argmax(e))
+                if e[j] > worst:
+                    worst, where = float(e[j]), (c.tolist(), float(dd[j]), float(v[j]), float(vref[j]))
+        return worst, 1.0, f'potential at distances {lo:g} .. {hi:g} from the atomic centres vs analytic (1e-2 Q) and vs its value at 1e-5 in the same direction (1e-3 Q), in units of the tolerance; worst at (centre, distance, value, value at 1e-5) = {where}'
     if kind == 'laplacian':
         # f = h_l(x - c) exp(-a |x - c|^2), h_l a solid harmonic of degree l:  Laplacian f = h_l (4 a^2 d^2 - (4 l + 6) a) exp(-a d^2)
         from grid.poisson import interpolate_laplacian
@@ -371,6 +441,21 @@ def run(spec):
                 out = c0 + u * (t * 1e-6)
                 ref_out = L(out, 1e-12)
                 err = max(err, spec['lap_rtol'] * float(np.max(np.abs(L(out) - ref_out) / np.maximum(np.abs(ref_out), scale))) / 1e-9)
+            # round 4: an explicit cutoff between 1e-10 and 1e-7, evaluation points log-spaced over 1e-12 .. 1e-6 on both sides of it
+            cut2 = spec.get('cut2')
+            if cut2:
+                on2 = L(c0 + u * cut2, cut2)
+                far2 = max(float(np.max(np.abs(on2))), scale)
+                for dist in np.exp(rng.uniform(np.log(1e-12), np.log(1e-6), size=8)):
+                    if dist < cut2 / 1.001:
+                        # the direction of fl(c0 + dist u) - c0 differs from u by eps |c0| / dist (rounding of the Cartesian coordinates), and near the centre the value is
+                        # dominated by direction-dependent amplified noise: the allowed relative deviation carries that term
+                        tol_in = 1e-4 + 20 * 2.2e-16 * max(1.0, float(np.max(np.abs(c0)))) / min(dist, cut2)
+                        err = max(err, spec['lap_rtol'] * float(np.max(np.abs(L(c0 + u * dist, cut2) - on2)) / far2) / tol_in)
+                    elif dist > cut2 * 1.001:
+                        out = c0 + u * dist
+                        ref_out = L(out, 1e-13)
+                        err = max(err, spec['lap_rtol'] * float(np.max(np.abs(L(out, cut2) - ref_out) / np.maximum(np.abs(ref_out), scale))) / 1e-9)
         return err, spec['lap_rtol'], 'interpolate_laplacian vs closed form (and points inside the cutoff vs the closed form at r = cutoff), max error / ((4l+6) a max|f|)'
     if kind == 'laplacian-mol':
         # structural clause: the molecular Laplacian is the sum over atoms A of the one-atom Laplacian interpolants of
@@ -1036,11 +1121,347 @@ def inv_threshold(I):
     I.chk(f'bvp: finite at distances 1e-300/1.01, 1.01e-300, 1e-302, 1e-298, 5e-324, 2.3e-308 from the centre [{vt!r}]', 0.0 if np.all(np.isfinite(vt)) else 1.0, 0.5)
 
 
+# ---- round 4 (AGENT_ROUND4 classes 14-18, 20) -----------------------------------------------------------------------------------
+def inv_inner(I):
+    """class 14: dtype / container kind of the arrays held by the grid objects handed to the solvers and of atnums / atcoords; class 15: documented argument
+    combinations (omitted / None / explicit default, an ignored alternative given as well); class 16: one argument object used for several requests, views into
+    larger caller arrays (bytes around the view unchanged), the grid's own arrays used as arguments; class 17: complex densities where the route is linear;
+    class 18: calls that raise leave no trace on the objects they were given; class 20: point arrays of 1 and 2 rows, atoms with unequal grids"""
+    import warnings as _w
+    from grid.basegrid import OneDGrid
+    from grid.molgrid import MolGrid
+    from grid.becke import BeckeWeights
+    from grid import rtransform
+    sp = I.spec
+    c = np.array(sp['center'], dtype=float)            # multiples of 1/4: exact in float32 and as integers x 1/4
+    gs = [(a, al, [float(x) for x in c]) for a, al, _ in sp['gauss']]
+    gr = _core('H', c) + gs
+    q, qr = sum(abs(a) for a, _, _ in gs), sum(abs(a) for a, _, _ in gr)
+    deg = I.spec['grid']['deg']
+    rp, rw = I.radial.points, I.radial.weights
+    g = I.AtomGrid(I.radial, degrees=[deg], center=c.copy())
+    rho, rhor = _rho(g.points, gs), _rho(g.points, gr)
+    pts = I.points([c], k=16)
+    atc, atn = np.array([c]), np.array([1])
+
+    def build(kind, grid, dens, **kw):
+        if kind == 'lap':
+            return I.lap(grid, dens)
+        if kind == 'robust':
+            np.random.seed(7)
+            a_c, a_n = kw.pop('atcoords', atc), kw.pop('atnums', atn)
+            return I.robust(grid, dens, I.inv, a_n, a_c, remove_large_pts=10.0, **kw)
+        return I.solve(kind, grid, dens, **kw)
+
+    ref = {k: build(k, g, rhor if k == 'robust' else rho)(pts) for k in ('bvp', 'ivp', 'robust', 'lap')}
+    for k, dens, gg, qq in (('bvp', rho, gs, q), ('ivp', rho, gs, q), ('robust', rhor, gr, qr)):
+        I.chk(f'{k}: float64 reference vs analytic potential', np.max(np.abs(ref[k] - _ref(pts, gg))), sp['atol_unit'] * qq)
+    # -- class 14 -----------------------------------------------------------------------------------------------------------
+    big_p, big_w = np.zeros(2 * len(rp) + 3), np.zeros(2 * len(rp) + 3)
+    big_p[1:-2:2], big_w[1:-2:2] = rp, rw
+    ro_p, ro_w = rp.copy(), rw.copy()
+    ro_p.setflags(write=False); ro_w.setflags(write=False)
+    radials = {'read-only points / weights': (ro_p, ro_w), 'strided views of larger arrays': (big_p[1:-2:2], big_w[1:-2:2]),
+               'negative-stride views': (rp[::-1].copy()[::-1], rw[::-1].copy()[::-1])}
+    centres = {'int64 centre' if np.all(c == np.round(c)) else 'float32 centre': (c.astype(np.int64) if np.all(c == np.round(c)) else c.astype(np.float32)),
+               'read-only centre': (lambda x: (x.setflags(write=False), x)[1])(c.copy()), 'centre as a strided view': np.repeat(c, 2)[::2]}
+    variants = [(n, OneDGrid(p_, w_, I.radial.domain), c.copy()) for n, (p_, w_) in radials.items()] + [(n, I.radial, cc) for n, cc in centres.items()]
+
+    def some(d):       # quick tier: a random half of every family of variants (all of them in the thorough tier)
+        items = list(d.items()) if isinstance(d, dict) else list(d)
+        if sp.get('all', False):
+            return items
+        idx = sorted(I.rng.choice(len(items), size=(len(items) + 1) // 2, replace=False))
+        return [items[i] for i in idx]
+
+    variants = some(variants)
+    for name, rad, cc in variants:
+        try:
+            gv = I.AtomGrid(rad, degrees=[deg], center=cc)
+        except (TypeError, ValueError) as e:
+            I.chk(f'AtomGrid built from {name} rejected: {type(e).__name__} (a clean rejection is acceptable)', 0.0, 0.5)
+            continue
+        for k in sp['kinds14']:
+            try:
+                v = build(k, gv, (rhor if k == 'robust' else rho).copy())(pts)
+            except Exception as e:
+                I.chk(f'{k} on an AtomGrid holding {name} raised {type(e).__name__}: {str(e)[:80]}', 1.0, 0.5)
+                continue
+            I.same(f'{k} on an AtomGrid holding {name} vs the float64 / contiguous grid', v, ref[k], rtol=1e-9)
+    ac_variants = {'list of lists': [[float(x) for x in c]], 'float32': atc.astype(np.float32), 'Fortran-ordered': np.asfortranarray(atc), 'read-only': (lambda x: (x.setflags(write=False), x)[1])(atc.copy()),
+                   'negative-stride view': np.vstack([atc, atc + 9.0])[::-1][1:], 'row of a larger array': np.vstack([atc - 5.0, atc, atc + 5.0])[1:2]}
+    an_variants = {'list': [1], 'int32': np.array([1], dtype=np.int32), 'float64': np.array([1.0]), 'uint8': np.array([1], dtype=np.uint8)}
+    for name, a_c in some(ac_variants):
+        snap = np.array(a_c, dtype=float, copy=True)
+        try:
+            v = build('robust', g, rhor, atcoords=a_c)(pts)
+        except Exception as e:
+            I.chk(f'robust with atcoords as {name} raised {type(e).__name__}: {str(e)[:80]}', 1.0, 0.5)
+            continue
+        I.same(f'robust with atcoords as {name} vs float64 array', v, ref['robust'], rtol=1e-9)
+        I.chk(f'robust: atcoords as {name} modified', 0.0 if np.array_equal(np.asarray(a_c, dtype=float), snap) else 1.0, 0.5)
+    for name, a_n in some(an_variants):
+        try:
+            v = build('robust', g, rhor, atnums=a_n)(pts)
+        except Exception as e:
+            I.chk(f'robust with atnums as {name} raised {type(e).__name__}: {str(e)[:80]}', 1.0, 0.5)
+            continue
+        I.same(f'robust with atnums as {name} vs int64 array', v, ref['robust'], rtol=1e-9)
+    # one-atom MolGrid with explicit aim_weights arrays of several kinds
+    for name, w in some({'float64 ones': np.ones(g.size), 'read-only': (lambda x: (x.setflags(write=False), x)[1])(np.ones(g.size)), 'strided view': np.ones(2 * g.size)[::2], 'int64 ones': np.ones(g.size, dtype=np.int64),
+                    'bool': np.ones(g.size, dtype=bool), 'float32': np.ones(g.size, dtype=np.float32)}):
+        try:
+            m1 = MolGrid(np.array([1]), [I.AtomGrid(I.radial, degrees=[deg], center=c.copy())], w, store=True)
+            v = build('bvp', m1, rho.copy())(pts)
+        except (TypeError, ValueError) as e:
+            I.chk(f'one-atom MolGrid with aim_weights as {name}: {type(e).__name__} (a clean rejection is acceptable)', 0.0, 0.5)
+            continue
+        I.same(f'bvp on a one-atom MolGrid with aim_weights as {name} vs the AtomGrid', v, ref['bvp'], rtol=1e-9)
+    # -- class 15 -----------------------------------------------------------------------------------------------------------
+    import grid.robust_poisson as RPm
+    dflt = np.array(RPm._DEFAULT_ALPHAS_BASIS, copy=True)
+    r2 = build('robust', g, rhor, split2=True)(pts)
+    I.same('robust split2=True: alphas_basis omitted vs None', build('robust', g, rhor, split2=True, alphas_basis=None)(pts), r2)
+    I.same('robust split2=True: alphas_basis omitted vs a copy of the default basis given', build('robust', g, rhor, split2=True, alphas_basis=dflt.copy())(pts), r2)
+    I.same('robust split2=True: the module default basis object itself given, twice', build('robust', g, rhor, split2=True, alphas_basis=RPm._DEFAULT_ALPHAS_BASIS)(pts),
+           build('robust', g, rhor, split2=True, alphas_basis=RPm._DEFAULT_ALPHAS_BASIS)(pts))
+    I.chk('the module default basis is unchanged after being used / passed', 0.0 if np.array_equal(RPm._DEFAULT_ALPHAS_BASIS, dflt) else 1.0, 0.5)
+    I.same('robust split2=False with an alphas_basis given as well (documented: used for the second split only) vs without', build('robust', g, rhor, split2=False, alphas_basis=[0.5, 5.0])(pts), ref['robust'])
+    np.random.seed(7)
+    I.same('robust: split2 positional vs keyword', I.robust(g, rhor, I.inv, atn, atc, True, None, remove_large_pts=10.0)(pts), r2)
+    np.random.seed(7)
+    v_omit = I.bvp(g, rho, I.inv)(pts)
+    np.random.seed(7)
+    I.same('bvp: every option omitted vs None / True / 1e6 / None given explicitly', I.bvp(g, rho, I.inv, boundary=None, include_origin=True, remove_large_pts=1e6, ode_params=None)(pts), v_omit)
+    np.random.seed(7)
+    I.same('bvp: transform positional vs keyword', I.bvp(g, rho, transform=I.inv)(pts), v_omit)
+    I.same('ivp: ode_params omitted vs None vs the defaults given explicitly', I.solve('ivp', g, rho, ode_params={'method': 'DOP853', 'rtol': 1e-8, 'atol': 1e-6})(pts), ref['ivp'], rtol=1e-13)
+    # -- class 16 -----------------------------------------------------------------------------------------------------------
+    host = np.full(3 * len(rho) + 7, 0.123)
+    view = host[5:5 + 2 * len(rho):2]
+    view[:] = rho
+    host_snap = host.copy()
+    for k in ('bvp', 'ivp', 'lap', 'bvp'):
+        I.same(f'{k}: density given as a strided view into a larger caller array (used for several solves) vs a pristine copy', build(k, g, view)(pts), ref[k])
+        I.chk(f'{k}: bytes of the larger caller array (view and surroundings) changed', 0.0 if np.array_equal(host, host_snap) else 1.0, 0.5)
+    hostr = np.full(2 * len(rhor) + 4, -7.0)
+    hostr[2:2 + len(rhor)] = rhor
+    hsnap = hostr.copy()
+    for s2 in (False, True, False):
+        I.same(f'robust(split2={s2}): density given as a slice of a larger caller array vs a pristine copy', build('robust', g, hostr[2:2 + len(rhor)], split2=s2)(pts), ref['robust'] if not s2 else r2)
+        I.chk(f'robust(split2={s2}): bytes of the larger caller array changed', 0.0 if np.array_equal(hostr, hsnap) else 1.0, 0.5)
+    gp_snap = g.points.copy()
+    for k in ('bvp', 'lap'):
+        V = build(k, g, rho)
+        a1 = V(g.points)
+        a2 = V(g.points)
+        I.same(f'{k}: evaluated twice at the grid\'s own points array', a2, a1, rtol=1e-13)
+        I.chk(f'{k}: the grid\'s points changed by evaluating there', 0.0 if np.array_equal(g.points, gp_snap) else 1.0, 0.5)
+    # -- class 17 -----------------------------------------------------------------------------------------------------------
+    z = 1.0 + 2.0j
+    for k in ('ivp', 'lap'):
+        with _w.catch_warnings():
+            _w.simplefilter('ignore')
+            try:
+                vc = np.asarray(build(k, g, rho * z)(pts))
+            except (TypeError, ValueError):
+                continue           # a clean rejection of complex data is acceptable
+        tol = (5e-4 * q if k == 'ivp' else 1e-10 * max(1.0, float(np.max(np.abs(ref[k]))))) * abs(z)
+        I.chk(f'{k}: complex density (1+2j) rho: the route is linear, so the answer is (1+2j) x the real one, or a rejection', np.max(np.abs(vc - z * ref[k])), tol)
+    # -- class 18: calls that raise leave no trace ----------------------------------------------------------------------------------
+    gu = I.AtomGrid(I.radial, degrees=[deg], center=c.copy())
+    bad = [lambda: I.solve('bvp', gu, rho, boundary=1), lambda: I.solve('bvp', gu, rho, include_origin='yes'), lambda: I.bvp(gu, rho, rtransform.InverseRTransform(rtransform.BeckeRTransform(-1.0, 1.5))),
+           lambda: I.solve('ivp', gu, rho, r_interval=(I.rmin, I.rmax)), lambda: I.solve('bvp', gu, rho[:-1]), lambda: build('robust', gu, rhor[:-1]), lambda: build('robust', gu, rhor, split2=True, alphas_basis=[1.0, -1.0]),
+           lambda: build('robust', gu, rhor, atnums=np.array([3])), lambda: build('robust', gu, rhor)(pts[:, :2]), lambda: I.lap(gu, rho[:-1])(pts), lambda: I.solve('bvp', gu, rho, ode_params={'tol': 1e-6, 'max_nodes': 3})]
+    raised = 0
+    for fn in bad:
+        try:
+            with _w.catch_warnings():
+                _w.simplefilter('ignore')
+                fn()
+        except Exception:
+            raised += 1
+    I.chk(f'{raised} of {len(bad)} malformed calls raised (all of them should)', 0.0 if raised == len(bad) else 1.0, 0.5)
+    for k in ('bvp', 'ivp', 'robust', 'lap'):
+        I.same(f'{k} on a grid object / in a process that has just seen {raised} rejected calls vs before', build(k, gu, rhor if k == 'robust' else rho)(pts), ref[k])
+    # -- class 20 -----------------------------------------------------------------------------------------------------------
+    for k in ('bvp', 'ivp', 'robust', 'lap'):
+        V = build(k, g, rhor if k == 'robust' else rho)
+        for n in (1, 2):
+            v = V(pts[:n].copy())
+            I.chk(f'{k}: {n} evaluation point(s) of shape ({n}, 3)', np.max(np.abs(np.asarray(v, dtype=float) - ref[k][:n])) if np.shape(v) == (n,) else 1.0, 1e-9 * max(1.0, float(np.max(np.abs(ref[k])))))
+    Im = _Inv({**sp, 'grid': sp['grid_mol']})
+    cm = [np.array(x, dtype=float) for x in sp['atoms2']]
+    gm = [(1.0, sp['gauss'][0][1], list(cm[0])), (0.6, sp['gauss'][0][1], list(cm[-1]))]
+    mol = MolGrid(np.array([1] * len(cm)), [Im.grid(list(x), d) for x, d in zip(cm, sp['degs2'])], BeckeWeights(order=3), store=True)
+    pm = _points({'pseed': sp['seed'], 'npts': 20, 'rlo': 0.05}, cm, 8.0)
+    vm = Im.solve('bvp', mol, _rho(mol.points, gm), include_origin=False)(pm)
+    I.chk(f'molecular bvp, atomic grids of unequal sizes (degrees {sp["degs2"]}) vs analytic (coarse grid)', np.max(np.abs(vm - _ref(pm, gm))), 5e-2 * 1.6)
+
+
+# ---- round 5 (AGENT_ROUND5 classes 21-26) --------------------------------------------------------------------------------------
+def inv_blocks(I):
+    """class 21: the returned callables evaluated on point lists past block boundaries (exact multiples 1024, 4096, 65536, 2^19 and non-multiples 1025, 4097, 20001, 65537,
+    2^19 + k), every element against the same callable evaluated chunk by chunk in small chunks (the callables are element-wise) and against the analytic potential;
+    class 22: descending radial grids and unsorted exponent bases; class 23: evaluation points / bases given as longdouble, float16, float32; class 24: an ODE transform that is
+    not the one the radial grid was built with, one transform object for two grids; class 25: the same array object with new contents for a second request; class 26: two grids
+    that differ only in a node at r = 0, in either order"""
+    from grid.basegrid import OneDGrid
+    from grid.molgrid import MolGrid
+    from grid.becke import BeckeWeights
+    from grid import rtransform, onedgrid
+    sp = I.spec
+    Z = [0.0, 0.0, 0.0]
+    c = np.array(sp['center'], dtype=float)
+    gs = [(a, al, [float(x) for x in c]) for a, al, _ in sp['gauss']]
+    gr = _core('H', c) + gs
+    q, qr = sum(abs(a) for a, _, _ in gs), sum(abs(a) for a, _, _ in gr)
+    deg = I.spec['grid']['deg']
+    g = I.AtomGrid(I.radial, degrees=[deg], center=c.copy())
+    rho, rhor = _rho(g.points, gs), _rho(g.points, gr)
+    atc, atn = np.array([c]), np.array([1])
+
+    def build(kind, grid, dens, **kw):
+        if kind == 'lap':
+            return I.lap(grid, dens)
+        if kind == 'robust':
+            np.random.seed(7)
+            return I.robust(grid, dens, I.inv, kw.pop('atnums', atn), kw.pop('atcoords', atc), remove_large_pts=10.0, **kw)
+        return I.solve(kind, grid, dens, **kw)
+
+    # -- class 21 -----------------------------------------------------------------------------------------------------------
+    nmax = max(sp['sizes'])
+    rng = np.random.default_rng(sp['seed'])
+    u = rng.normal(size=(nmax, 3))
+    u /= np.linalg.norm(u, axis=1)[:, None]
+    big = c + u * np.exp(rng.uniform(np.log(0.05), np.log(8.0), size=nmax))[:, None]
+    cm = [np.array(x, dtype=float) for x in sp['atoms2']]
+    Im = _Inv({**sp, 'grid': sp['grid_mol']})
+    mol = Im.mol([list(x) for x in cm])
+    gm = [(1.0, sp['gauss'][0][1], list(cm[0])), (0.6, sp['gauss'][0][1], list(cm[-1]))]
+    bigm = big - c + cm[0]
+    routes = {'bvp': (lambda: build('bvp', g, rho), big, gs, q, sp['atol_unit']), 'ivp': (lambda: build('ivp', g, rho), big, gs, q, sp['atol_unit']),
+              'robust': (lambda: build('robust', g, rhor), big, gr, qr, sp['atol_unit']), 'lap': (lambda: build('lap', g, rho), big, None, 0.0, 0.0),
+              'bvp-molecular': (lambda: Im.solve('bvp', mol, _rho(mol.points, gm), include_origin=False), bigm, gm, 1.6, 0.15)}      # degree-3 molecular grid: sanity only (observed <= 0.09)
+    for name in sp['routes']:
+        mk, P, gg, qq, au = routes[name]
+        V = mk()
+        sizes = sp['sizes'] if name in sp['big_routes'] else [n for n in sp['sizes'] if n <= 70000]
+        n_top = max(sizes)
+        ref = np.concatenate([V(P[i:min(i + 9973, n_top)]) for i in range(0, n_top, 9973)])          # brute force: 9973 points (a prime) at a time
+        scale = max(1.0, float(np.max(np.abs(ref))))
+        if gg is not None:
+            I.chk(f'{name}: {n_top} points, chunk-wise reference vs analytic potential', np.max(np.abs(ref - _ref(P[:n_top], gg))), au * qq)
+        for n in sizes:
+            v = V(P[:n])
+            ok = np.shape(v) == (n,)
+            worst = int(np.argmax(np.abs(v - ref[:n]))) if ok else 0
+            I.chk(f'{name}: one call with {n} evaluation points vs the same callable on chunks of 9973 points, element by element (worst at index {worst} of {n})',
+                  np.max(np.abs(v - ref[:n])) if ok else 1.0, 1e-11 * scale)
+        n_h = min(n_top, 65537)
+        h = n_h // 2 + 1
+        I.same(f'{name}: f(all {n_h} points) == concat(f(first half), f(second half))', V(P[:n_h]), np.concatenate([V(P[:h]), V(P[h:n_h])]), rtol=1e-12)
+    pts = big[:24].copy()
+    ref = {k: routes[k][0]()(pts) for k in ('bvp', 'ivp', 'robust', 'lap')}
+    # -- class 22 -----------------------------------------------------------------------------------------------------------
+    rev = OneDGrid(I.radial.points[::-1].copy(), I.radial.weights[::-1].copy(), I.radial.domain)
+    for k in ('bvp', 'lap'):
+        try:
+            grev = I.AtomGrid(rev, degrees=[deg], center=c.copy())
+            v = build(k, grev, _rho(grev.points, gs))(pts)
+        except ValueError:
+            I.chk(f'{k}: descending radial grid rejected with ValueError (a clean rejection is acceptable)', 0.0, 0.5)
+            continue
+        I.chk(f'{k}: descending radial grid accepted: same answer as on the ascending grid', np.max(np.abs(v - ref[k])), 1e-6 * max(1.0, float(np.max(np.abs(ref[k])))))
+    basis = [0.3, 1.0, 3.0, 9.0, 27.0]
+    r2 = build('robust', g, rhor, split2=True, alphas_basis=basis)(pts)
+    I.chk('robust split2 vs analytic (basis ascending)', np.max(np.abs(r2 - _ref(pts, gr))), sp['atol_unit'] * qr)
+    for name, ab in (('descending', basis[::-1]), ('shuffled', [3.0, 27.0, 0.3, 9.0, 1.0])):
+        I.chk(f'robust split2: alphas_basis {name} vs ascending (the fit treats every exponent alike)', np.max(np.abs(build('robust', g, rhor, split2=True, alphas_basis=ab)(pts) - r2)), sp['linear_atol_unit'] * qr)
+    # -- class 23 -----------------------------------------------------------------------------------------------------------
+    p16 = (c + np.round((pts - c) * 8.0) / 8.0)
+    p16 = p16[np.linalg.norm(p16 - c, axis=1) > 0.1]
+    for k in ('bvp', 'ivp', 'robust', 'lap'):
+        V = routes[k][0]()
+        want = V(p16)
+        sc = 1e-9 * max(1.0, float(np.max(np.abs(want))))
+        for name, arr in (('longdouble', p16.astype(np.longdouble)), ('float32 (exactly representable)', p16.astype(np.float32)), ('float16 (exactly representable)', p16.astype(np.float16))):
+            if not np.array_equal(arr.astype(np.float64), p16):
+                continue
+            snap = arr.copy()
+            try:
+                v1 = V(arr)
+                v2 = V(arr)
+            except (TypeError, ValueError):
+                continue          # a clean rejection of a dtype is acceptable
+            I.chk(f'{k}: points as {name} vs float64', np.max(np.abs(np.asarray(v1, dtype=float) - want)), sc)
+            I.chk(f'{k}: second call with the same {name} points object vs first', np.max(np.abs(np.asarray(v2, dtype=float) - np.asarray(v1, dtype=float))), 0.0)
+            I.chk(f'{k}: {name} points modified', 0.0 if np.array_equal(arr, snap) and arr.dtype == snap.dtype else 1.0, 0.5)
+    for name, ab in (('float32', np.array(basis, dtype=np.float32)), ('longdouble', np.array(basis, dtype=np.longdouble)), ('int64 [1, 3, 9, 27]', np.array([1, 3, 9, 27]))):
+        snap = ab.copy()
+        want = build('robust', g, rhor, split2=True, alphas_basis=[float(x) for x in ab])(pts)
+        I.chk(f'robust split2: alphas_basis as {name} vs float64 list', np.max(np.abs(build('robust', g, rhor, split2=True, alphas_basis=ab)(pts) - want)), sp['linear_atol_unit'] * qr)
+        I.chk(f'robust split2: alphas_basis {name} modified', 0.0 if np.array_equal(ab, snap) and ab.dtype == snap.dtype else 1.0, 0.5)
+    # -- class 24 -----------------------------------------------------------------------------------------------------------
+    for tf in (rtransform.BeckeRTransform(1e-4, R=sp['R_other']), rtransform.LinearFiniteRTransform(1e-4, I.rmax + 5.0)):
+        inv2 = rtransform.InverseRTransform(tf)
+        np.random.seed(7)
+        v = I.bvp(g, rho, inv2, remove_large_pts=10.0)(pts)
+        I.chk(f'bvp with an ODE transform unrelated to the radial grid ({type(tf).__name__}) vs analytic', np.max(np.abs(v - _ref(pts, gs))), sp['atol_unit'] * q)
+        g_other = I.AtomGrid(I.radial, degrees=[sp['other_deg']], center=np.zeros(3))
+        np.random.seed(7)
+        I.bvp(g_other, _rho(g_other.points, [(1.0, 1.0, Z)]), inv2, remove_large_pts=8.0)(pts)
+        np.random.seed(7)
+        I.same(f'bvp: one {type(tf).__name__} transform object used for another grid in between vs before', I.bvp(g, rho, inv2, remove_large_pts=10.0)(pts), v)
+        I.chk(f'ivp with that transform vs analytic', np.max(np.abs(I.ivp(g, rho, inv2, r_interval=(I.rmax, I.rmin))(pts) - _ref(pts, gs))), sp['atol_unit'] * q)
+    # -- class 25: the same array objects with new contents --------------------------------------------------------------------------------
+    gs2 = [(a * 0.7, al * 1.3, R) for a, al, R in gs]
+    buf, pbuf = rho.copy(), pts.copy()
+    for k in ('bvp', 'ivp', 'lap'):
+        V1 = build(k, g, buf)
+        V1(pbuf)
+        buf[:] = _rho(g.points, gs2)
+        pbuf *= 0.5
+        pbuf += 0.5 * c
+        fresh = build(k, I.AtomGrid(I.radial, degrees=[deg], center=c.copy()), buf.copy())(pbuf.copy())
+        I.same(f'{k}: second solve with the same density / points array objects after new contents were written into them vs fresh copies', build(k, g, buf)(pbuf), fresh)
+        buf[:] = rho
+        pbuf[:] = pts
+    bufr, cbuf, abuf = rhor.copy(), atc.copy(), np.array(basis)
+    build('robust', g, bufr, atcoords=cbuf, split2=True, alphas_basis=abuf)(pts)
+    abuf *= 1.7
+    bufr *= 1.1
+    fresh = build('robust', I.AtomGrid(I.radial, degrees=[deg], center=c.copy()), bufr.copy(), atcoords=cbuf.copy(), split2=True, alphas_basis=abuf.copy())(pts)
+    I.same('robust: second solve with the same density / atcoords / alphas_basis objects after in-place changes vs fresh copies', build('robust', g, bufr, atcoords=cbuf, split2=True, alphas_basis=abuf)(pts), fresh)
+    # -- class 26: two grids that differ only in a node at r = 0 -------------------------------------------------------------------------------
+    pair = {}
+    for rmin in (0.0, 1e-6):
+        tf = rtransform.BeckeRTransform(rmin, R=sp['R_other'], trim_inf=True)
+        rad = tf.transform_1d_grid(onedgrid.Trapezoidal(sp['n0']))
+        pair[rmin] = (lambda rad=rad: I.AtomGrid(rad, degrees=[5], center=np.zeros(3)), rtransform.InverseRTransform(tf))
+    p0 = _points({'pseed': sp['seed'], 'npts': 20}, [np.zeros(3)], 8.0)
+    g0s = [(1.0, sp['gauss'][0][1], Z)]
+
+    def one(rmin, grid=None):
+        mk, inv_ = pair[rmin]
+        gg_ = grid or mk()
+        np.random.seed(7)
+        return I.bvp(gg_, _rho(gg_.points, g0s), inv_, remove_large_pts=10.0)(p0), gg_
+
+    iso = {}
+    for rmin in sp['order26']:
+        iso[rmin], _ = one(rmin)
+        I.chk(f'bvp on a radial grid with first point {rmin:g} vs analytic', np.max(np.abs(iso[rmin] - _ref(p0, g0s))), sp['atol_unit'])
+    ga, gb = pair[sp['order26'][0]][0](), pair[sp['order26'][1]][0]()
+    for rmin, gobj in ((sp['order26'][0], ga), (sp['order26'][1], gb), (sp['order26'][0], ga), (sp['order26'][1], gb)):
+        I.same(f'bvp: grids with / without a node at r = 0 alternating in one process (first point {rmin:g}) vs the answer computed in isolation', one(rmin, gobj)[0], iso[rmin])
+
+
 def inv_run(spec):
     """-> list of (label, observed, threshold); a check fails iff not observed <= threshold"""
     I = _Inv(spec)
     {'funcvals': inv_funcvals, 'params': inv_params, 'grid': inv_grid, 'mol': inv_mol, 'dtype': inv_dtype, 'extreme': inv_extreme,
-     'translate': inv_translate, 'scale': inv_scale, 'special': inv_special, 'threshold': inv_threshold}[spec['scenario']](I)
+     'translate': inv_translate, 'scale': inv_scale, 'special': inv_special, 'threshold': inv_threshold, 'inner': inv_inner, 'blocks': inv_blocks}[spec['scenario']](I)
     return I.out
 '''
 _ns_inv: dict = {}
@@ -1104,6 +1525,38 @@ class Intercept:
     def __exit__(self, *a):
         for k, v in self.saved.items():
             setattr(self.P, k, v)
+
+
+# ----------------------------------------------------------------------------------------------
+# round 4: crash-proof structure -- parts / cases run independently; an exception of the harness in one of them is kept and re-raised
+# only after everything else has run (a DriverError is an infrastructure problem and is passed on at once)
+# ----------------------------------------------------------------------------------------------
+from ..common import DriverError
+
+
+def _keep_exc(ctx: Ctx, label, e):
+    import traceback
+
+    kept = ctx.extra.setdefault("_kept_exc", [])
+    if len(kept) < 5:
+        kept.append((label, e, traceback.format_exc()[-1500:]))
+
+
+def _part(ctx: Ctx, label, fn):
+    try:
+        fn()
+    except DriverError:
+        raise
+    except Exception as e:
+        _keep_exc(ctx, label, e)
+
+
+def _raise_kept(ctx: Ctx):
+    kept = ctx.extra.pop("_kept_exc", [])
+    if kept:
+        label, e, tb = kept[0]
+        ctx.info(f"{len(kept)} part(s) of the harness raised; first: {label}: {type(e).__name__}: {e}")
+        raise RuntimeError(f"part '{label}' raised {type(e).__name__}: {e}\n{tb}") from e
 
 
 def _tok(line):
@@ -1337,182 +1790,193 @@ def corr(ctx: Ctx):
 
     ncase = ctx.n(36, 500)
     for case in range(ncase):
-        natom = ctx.rng.choice([1, 1, 1, 2, 3])
-        kind = "bvp" if ctx.rng.random() < 0.65 else "ivp"
-        centers = [np.zeros(3)] if natom == 1 and ctx.rng.random() < 0.5 else [np.array([ctx.rng.uniform(-1.5, 1.5) for _ in range(3)]) + 2.5 * k for k in range(natom)]
-        tf = inv = None
-        grids = []
-        g0, tf, inv = _small_grid(ctx, center=centers[0], with_origin=(False if kind == "ivp" else None))
-        grids.append(g0)
-        ag = importlib.import_module("grid.atomgrid")
-        for c in centers[1:]:
-            grids.append(ag.AtomGrid(g0.rgrid, degrees=[int(g0.l_max)], center=c))
-        if natom == 1:
-            mg = grids[0]
-            # an AtomGrid argument: the generated wrap (np.array([w] * size), one atom: indices = [0, size])
-            weights, indices = np.array(_tok(driver_batch([f"C16.wrap {mg.size}"])[0])[1].fvec()), np.array([0, mg.size])
-        else:
-            mg = mgm.MolGrid(np.array([1] * natom), grids, becke.BeckeWeights(order=3), store=True)
-            weights, indices = mg.aim_weights, mg.indices
-        vals = _density(ctx, mg.points, centers)
-        opts = {"transform": inv}
-        with Intercept() as ic:
-            try:
-                with np.errstate(all="ignore"):
-                    if kind == "bvp":
-                        pts_r = g0.rgrid.points
-                        opts["include_origin"] = ctx.rng.random() < 0.6
-                        pk = float(np.sort(pts_r)[len(pts_r) * 2 // 3])
-                        # None / default / exactly a radial point / both sides of it by factors 1.01 and 100
-                        opts["remove_large_pts"] = ctx.rng.choice([None, 1e6, pk, float(pts_r[-1]), pk * 1.01, pk / 1.01, pk * 100.0, pk / 100.0])
-                        opts["boundary"] = None if ctx.rng.random() < 0.7 else ctx.rng.uniform(-2, 2)
-                        V = P.solve_poisson_bvp(mg, vals, inv, boundary=opts["boundary"], include_origin=opts["include_origin"],
-                                                remove_large_pts=opts["remove_large_pts"])
-                    else:
-                        rmax, rmin = float(np.max(g0.rgrid.points)), float(np.min(g0.rgrid.points))
-                        u = ctx.rng.random()
-                        if u < 0.12:          # the default of the public function
-                            opts["r_interval"] = (consts["pub_r0"], consts["pub_r1"])
-                            V = P.solve_poisson_ivp(mg, vals, inv)
+        try:
+            natom = ctx.rng.choice([1, 1, 1, 2, 3])
+            kind = "bvp" if ctx.rng.random() < 0.65 else "ivp"
+            centers = [np.zeros(3)] if natom == 1 and ctx.rng.random() < 0.5 else [np.array([ctx.rng.uniform(-1.5, 1.5) for _ in range(3)]) + 2.5 * k for k in range(natom)]
+            tf = inv = None
+            grids = []
+            g0, tf, inv = _small_grid(ctx, center=centers[0], with_origin=(False if kind == "ivp" else None))
+            grids.append(g0)
+            ag = importlib.import_module("grid.atomgrid")
+            for c in centers[1:]:
+                grids.append(ag.AtomGrid(g0.rgrid, degrees=[int(g0.l_max)], center=c))
+            if natom == 1:
+                mg = grids[0]
+                # an AtomGrid argument: the generated wrap (np.array([w] * size), one atom: indices = [0, size])
+                weights, indices = np.array(_tok(driver_batch([f"C16.wrap {mg.size}"])[0])[1].fvec()), np.array([0, mg.size])
+            else:
+                mg = mgm.MolGrid(np.array([1] * natom), grids, becke.BeckeWeights(order=3), store=True)
+                weights, indices = mg.aim_weights, mg.indices
+            vals = _density(ctx, mg.points, centers)
+            opts = {"transform": inv}
+            with Intercept() as ic:
+                try:
+                    with np.errstate(all="ignore"):
+                        if kind == "bvp":
+                            pts_r = g0.rgrid.points
+                            opts["include_origin"] = ctx.rng.random() < 0.6
+                            pk = float(np.sort(pts_r)[len(pts_r) * 2 // 3])
+                            # None / default / exactly a radial point / both sides of it by factors 1.01 and 100
+                            opts["remove_large_pts"] = ctx.rng.choice([None, 1e6, pk, float(pts_r[-1]), pk * 1.01, pk / 1.01, pk * 100.0, pk / 100.0])
+                            opts["boundary"] = None if ctx.rng.random() < 0.7 else ctx.rng.uniform(-2, 2)
+                            V = P.solve_poisson_bvp(mg, vals, inv, boundary=opts["boundary"], include_origin=opts["include_origin"],
+                                                    remove_large_pts=opts["remove_large_pts"])
                         else:
-                            # decreasing / increasing (rejected) / equal end points and end points differing by one part in 1e2 either way (the guard is `<`)
-                            opts["r_interval"] = ((min(rmax, 50.0), rmin) if u < 0.7 else (rmin, rmax) if u < 0.8 else (rmax, rmax) if u < 0.87
-                                                  else (rmin, rmin * 1.01) if u < 0.93 else (rmin * 1.01, rmin))
-                            V = P.solve_poisson_ivp(mg, vals, inv, r_interval=opts["r_interval"])
-                impl_tag = "ok"
-            except ValueError:
-                impl_tag = "value-error"
-        key = f"poisson.solve_poisson_{kind}:" + ("atomic" if natom == 1 else "molecular")
-        if kind == "ivp":
-            ans = driver_batch([f"C16.interval {f2b(opts['r_interval'][0])} {f2b(opts['r_interval'][1])}"])[0]
-            mtag = ans.split()[0]
-            ctx.count([kind, "interval", opts["r_interval"]], nontrivial=False, tag=f"ivp:interval:{mtag}")
-            if mtag != impl_tag:
-                ctx.fail("corr", key + ":interval", f"r_interval={opts['r_interval']}: implementation {impl_tag}, model {mtag}")
-            if impl_tag != "ok":
+                            rmax, rmin = float(np.max(g0.rgrid.points)), float(np.min(g0.rgrid.points))
+                            u = ctx.rng.random()
+                            if u < 0.12:          # the default of the public function
+                                opts["r_interval"] = (consts["pub_r0"], consts["pub_r1"])
+                                V = P.solve_poisson_ivp(mg, vals, inv)
+                            else:
+                                # decreasing / increasing (rejected) / equal end points and end points differing by one part in 1e2 either way (the guard is `<`)
+                                opts["r_interval"] = ((min(rmax, 50.0), rmin) if u < 0.7 else (rmin, rmax) if u < 0.8 else (rmax, rmax) if u < 0.87
+                                                      else (rmin, rmin * 1.01) if u < 0.93 else (rmin * 1.01, rmin))
+                                V = P.solve_poisson_ivp(mg, vals, inv, r_interval=opts["r_interval"])
+                    impl_tag = "ok"
+                except ValueError:
+                    impl_tag = "value-error"
+            key = f"poisson.solve_poisson_{kind}:" + ("atomic" if natom == 1 else "molecular")
+            if kind == "ivp":
+                ans = driver_batch([f"C16.interval {f2b(opts['r_interval'][0])} {f2b(opts['r_interval'][1])}"])[0]
+                mtag = ans.split()[0]
+                ctx.count([kind, "interval", opts["r_interval"]], nontrivial=False, tag=f"ivp:interval:{mtag}")
+                if mtag != impl_tag:
+                    ctx.fail("corr", key + ":interval", f"r_interval={opts['r_interval']}: implementation {impl_tag}, model {mtag}")
+                if impl_tag != "ok":
+                    continue
+            elif impl_tag != "ok":
+                ctx.fail("corr", key + ":raise", "solve_poisson_bvp raised ValueError on a valid input", witness={"opts": {k: repr(v) for k, v in opts.items()}})
                 continue
-        elif impl_tag != "ok":
-            ctx.fail("corr", key + ":raise", "solve_poisson_bvp raised ValueError on a valid input", witness={"opts": {k: repr(v) for k, v in opts.items()}})
-            continue
-        if len(ic.atoms) != natom:
-            ctx.fail("corr", key + ":atoms", f"{len(ic.atoms)} per-atom solves for {natom} atoms")
-            continue
-        # slices  w_A rho
-        tag, t = _tok(driver_batch([f"C16.slices {fvec(vals)} {fvec(weights)} {vec([int(i) for i in indices])}"])[0])
-        ctx.count([kind, "slices", natom, len(vals)], nontrivial=natom > 1, tag=f"{kind}:slices:natom={natom}")
-        if tag != "ok" or t.nat() != natom:
-            ctx.fail("corr", key + ":slices", f"model answered {tag} for the per-atom slices")
-            continue
-        for a in range(natom):
-            ms = t.fvec()
-            iv = ic.atoms[a]["vals"]
-            if len(ms) != len(iv) or any(f2b(x) != f2b(y) for x, y in zip(ms, iv)):
-                ctx.fail("corr", key + ":slices", f"density handed to the solver of atom {a} differs from w_A*rho cut at molgrid.indices",
-                         witness={"atom": a, "len_impl": len(iv), "len_model": len(ms), "impl": iv[:4], "model": ms[:4]})
-        for a in range(natom):
-            rec = ic.atoms[a]
-            _check_atom(ctx, kind, rec, ic.calls[rec["first_call"]:rec["first_call"] + rec["ncalls"]], opts, y00_lib, consts, key)
-        # sum over atoms
-        pts = np.array([[ctx.rng.uniform(-3, 3) for _ in range(3)] for _ in range(3)])
-        with np.errstate(all="ignore"):
-            tot = V(pts)
-            per = [rec["interp"](pts) for rec in ic.atoms]
-        out = driver_batch([f"C16.molsum {fvec([p[j] for p in per])}" for j in range(len(pts))])
-        for j, ans in enumerate(out):
-            tag, t = _tok(ans)
-            ctx.count([kind, "molsum", natom, j, case], nontrivial=natom > 1, tag=f"{kind}:molsum:natom={natom}")
-            if tag != "ok" or not _feq(t.flt(), tot[j], rtol=1e-15, scale=sum(abs(float(p[j])) for p in per)):
-                ctx.fail("corr", key + ":sum", f"molecular potential is not the sum of the atomic interpolants in order", witness={"impl": float(tot[j]), "parts": [float(p[j]) for p in per]})
+            if len(ic.atoms) != natom:
+                ctx.fail("corr", key + ":atoms", f"{len(ic.atoms)} per-atom solves for {natom} atoms")
+                continue
+            # slices  w_A rho
+            tag, t = _tok(driver_batch([f"C16.slices {fvec(vals)} {fvec(weights)} {vec([int(i) for i in indices])}"])[0])
+            ctx.count([kind, "slices", natom, len(vals)], nontrivial=natom > 1, tag=f"{kind}:slices:natom={natom}")
+            if tag != "ok" or t.nat() != natom:
+                ctx.fail("corr", key + ":slices", f"model answered {tag} for the per-atom slices")
+                continue
+            for a in range(natom):
+                ms = t.fvec()
+                iv = ic.atoms[a]["vals"]
+                if len(ms) != len(iv) or any(f2b(x) != f2b(y) for x, y in zip(ms, iv)):
+                    ctx.fail("corr", key + ":slices", f"density handed to the solver of atom {a} differs from w_A*rho cut at molgrid.indices",
+                             witness={"atom": a, "len_impl": len(iv), "len_model": len(ms), "impl": iv[:4], "model": ms[:4]})
+            for a in range(natom):
+                rec = ic.atoms[a]
+                _check_atom(ctx, kind, rec, ic.calls[rec["first_call"]:rec["first_call"] + rec["ncalls"]], opts, y00_lib, consts, key)
+            # sum over atoms
+            pts = np.array([[ctx.rng.uniform(-3, 3) for _ in range(3)] for _ in range(3)])
+            with np.errstate(all="ignore"):
+                tot = V(pts)
+                per = [rec["interp"](pts) for rec in ic.atoms]
+            out = driver_batch([f"C16.molsum {fvec([p[j] for p in per])}" for j in range(len(pts))])
+            for j, ans in enumerate(out):
+                tag, t = _tok(ans)
+                ctx.count([kind, "molsum", natom, j, case], nontrivial=natom > 1, tag=f"{kind}:molsum:natom={natom}")
+                if tag != "ok" or not _feq(t.flt(), tot[j], rtol=1e-15, scale=sum(abs(float(p[j])) for p in per)):
+                    ctx.fail("corr", key + ":sum", f"molecular potential is not the sum of the atomic interpolants in order", witness={"impl": float(tot[j]), "parts": [float(p[j]) for p in per]})
+        except DriverError:
+            raise
+        except Exception as e:      # crash-proof: one case that raises must not hide what the other cases / parts find
+            _keep_exc(ctx, 'posed-problem case', e)
 
     # ---- robust solver: residual, core density, total --------------------------------------------
     nrob = ctx.n(8, 80)
     saved = {k: getattr(RP, k) for k in ("solve_poisson_bvp", "_fit_residual_gaussians")}
     for case in range(nrob):
-        natom = ctx.rng.choice([1, 1, 2])
-        atnums = [ctx.rng.choice([1, 6, 7, 8, 17]) for _ in range(natom)]
-        centers = [np.array([ctx.rng.uniform(-1, 1) for _ in range(3)]) + 2.0 * k for k in range(natom)]
-        g0, tf, inv = _small_grid(ctx, center=centers[0])
-        ag = importlib.import_module("grid.atomgrid")
-        grids = [g0] + [ag.AtomGrid(g0.rgrid, degrees=[int(g0.l_max)], center=c) for c in centers[1:]]
-        mg = grids[0] if natom == 1 else mgm.MolGrid(np.array(atnums), grids, becke.BeckeWeights(order=3), store=True)
-        vals = _density(ctx, mg.points, centers) + 0.3
-        split2 = ctx.rng.random() < 0.5
-        seen = {}
-
-        def fake_solve(molgrid, residual, transform, **kw):
-            seen["args"] = (molgrid, np.array(residual, copy=True), transform, dict(kw))
-            return lambda p: np.sin(np.sum(np.asarray(p), axis=1))
-
-        def fit_wrap(grid_pts, residual, atc, alphas_basis):
-            seen["fit_in"] = np.array(residual, copy=True)
-            out = saved["_fit_residual_gaussians"](grid_pts, residual, atc, alphas_basis)
-            seen["fit_out"] = out
-            return out
-
-        RP.solve_poisson_bvp = fake_solve
-        RP._fit_residual_gaussians = fit_wrap
         try:
-            kw = {"remove_large_pts": 10.0} if ctx.rng.random() < 0.5 else {}
-            # non-default bases incl. a single exponent (0 or 1 retained Gaussian per atom)
-            ab = ctx.rng.choice([None, None, [round(10 ** ctx.rng.uniform(-0.5, 1.0), 4)], [0.4, 2.5, 11.0]]) if split2 else None
-            V = RP.solve_poisson_robust(mg, vals, inv, np.array(atnums), np.array(centers), split2=split2, alphas_basis=ab, **kw)
-        finally:
-            for k, v in saved.items():
-                setattr(RP, k, v)
-        key = "robust_poisson.solve_poisson_robust:" + ("split2" if split2 else "split1")
-        params = [cb.load_atomic_gaussian_params(int(z)) for z in atnums]
-        after1 = seen["fit_in"] if split2 else seen["args"][1]
-        if seen["args"][0] is not mg or seen["args"][2] is not inv or seen["args"][3] != kw:
-            ctx.fail("corr", key + ":call", "solve_poisson_bvp is not called with the caller's grid / transform / options", witness={"kw": seen["args"][3]})
-        if split2 and (len(seen["args"][1]) != len(vals) or any(f2b(a) != f2b(b) for a, b in zip(seen["args"][1], seen["fit_out"][3]))):
-            ctx.fail("corr", key + ":call", "with split2 the array handed to solve_poisson_bvp is not the residual left by the fit")
-        js = sorted({0, len(vals) - 1} | {ctx.rng.randrange(len(vals)) for _ in range(6)})
-        lines, meta = [], []
-        for j in js:
-            cores = []
-            for (cs, als), c in zip(params, centers):
-                rsq = float(np.sum((mg.points[j] - c) ** 2))
-                lib = float(RP._build_core_density(mg.points[j:j + 1], c, cs, als)[0])
-                cores.append(lib)
-                lines.append(f"C16.core {f2b(rsq)} {fvec(cs)} {fvec(als)}")
-                meta.append(("core", j, lib))
-            lines.append(f"C16.residual {f2b(vals[j])} {fvec(cores)}")
-            meta.append(("res", j, float(after1[j])))
-        for (what, j, impl), ans in zip(meta, driver_batch(lines)):
-            tag, t = _tok(ans)
-            m = t.flt()
-            ctx.count(["robust", what, case, j], nontrivial=True, tag=f"robust:{what}")
-            if not _feq(impl, m, rtol=1e-12 if what == "core" else 1e-15, scale=max(abs(impl), abs(float(vals[j])))):
-                ctx.fail("corr", key + (":core-density" if what == "core" else ":residual"),
-                         f"{'_build_core_density' if what == 'core' else 'residual after split 1'} at grid point {j}: implementation {impl}, model {m}",
-                         witness={"point": j, "impl": impl, "model": m, "atnums": atnums})
-        pts = np.array([[ctx.rng.uniform(-3, 3) for _ in range(3)] for _ in range(4)])
-        tot = V(pts)
-        pots = [cb.coulomb_potential(pts, centers_s=np.tile(c, (len(cs), 1)), coeffs_s=cs, alphas_s=als, normalized=True) for (cs, als), c in zip(params, centers)]
-        vb = np.zeros(len(pts))
-        if split2 and len(seen["fit_out"][0]) > 0:
-            fc, fa, fcen, _ = seen["fit_out"]
-            vb = cb.coulomb_potential(pts, centers_s=fcen, coeffs_s=fc, alphas_s=fa, normalized=True)
-        vr = np.sin(np.sum(pts, axis=1))
-        # v_bonding as the model sees it: the potential of the returned Gaussians (any number of them); whether it is used is the generated `len(fit_coeffs) > 0`
-        nfit = len(seen["fit_out"][0]) if split2 else 0
-        out = driver_batch([f"C16.total {f2b(vb[j])} {f2b(vr[j])} {fvec([p[j] for p in pots])}" for j in range(len(pts))]
-                           + [f"C16.total2 {nfit} {f2b(vb[j])} {f2b(vr[j])} {fvec([p[j] for p in pots])}" for j in range(len(pts))])
-        for j, (ans, ans2) in enumerate(zip(out[:len(pts)], out[len(pts):])):
-            tag, t = _tok(ans)
-            m = t.flt()
-            m2 = _tok(ans2)[1].flt()
-            ctx.count(["robust", "total2", case, j, nfit], nontrivial=True, tag=f"robust:total:nfit={'0' if nfit == 0 else '1' if nfit == 1 else '>1'}")
-            if not _feq(tot[j], m2, rtol=1e-14):
-                ctx.fail("corr", key + ":total", f"total_potential = {float(tot[j])}, statement-wise model (nfit = {nfit}) = {m2}",
-                         witness={"impl": float(tot[j]), "model": m2, "nfit": nfit, "v_core_parts": [float(p[j]) for p in pots], "v_bonding": float(vb[j]), "v_residual": float(vr[j])})
-            ctx.count(["robust", "total", case, j], nontrivial=True, tag="robust:total" + (":split2" if split2 else ""))
-            if not _feq(tot[j], m, rtol=1e-14):
-                ctx.fail("corr", key + ":total", f"total_potential = {float(tot[j])}, model v_core + v_bonding + v_residual = {m}",
-                         witness={"impl": float(tot[j]), "model": m, "v_core_parts": [float(p[j]) for p in pots], "v_bonding": float(vb[j]), "v_residual": float(vr[j])})
+            natom = ctx.rng.choice([1, 1, 2])
+            atnums = [ctx.rng.choice([1, 6, 7, 8, 17]) for _ in range(natom)]
+            centers = [np.array([ctx.rng.uniform(-1, 1) for _ in range(3)]) + 2.0 * k for k in range(natom)]
+            g0, tf, inv = _small_grid(ctx, center=centers[0])
+            ag = importlib.import_module("grid.atomgrid")
+            grids = [g0] + [ag.AtomGrid(g0.rgrid, degrees=[int(g0.l_max)], center=c) for c in centers[1:]]
+            mg = grids[0] if natom == 1 else mgm.MolGrid(np.array(atnums), grids, becke.BeckeWeights(order=3), store=True)
+            vals = _density(ctx, mg.points, centers) + 0.3
+            split2 = ctx.rng.random() < 0.5
+            seen = {}
 
-    _corr_laplacian(ctx)
-    _corr_round3(ctx, consts)
+            def fake_solve(molgrid, residual, transform, **kw):
+                seen["args"] = (molgrid, np.array(residual, copy=True), transform, dict(kw))
+                return lambda p: np.sin(np.sum(np.asarray(p), axis=1))
+
+            def fit_wrap(grid_pts, residual, atc, alphas_basis):
+                seen["fit_in"] = np.array(residual, copy=True)
+                out = saved["_fit_residual_gaussians"](grid_pts, residual, atc, alphas_basis)
+                seen["fit_out"] = out
+                return out
+
+            RP.solve_poisson_bvp = fake_solve
+            RP._fit_residual_gaussians = fit_wrap
+            try:
+                kw = {"remove_large_pts": 10.0} if ctx.rng.random() < 0.5 else {}
+                # non-default bases incl. a single exponent (0 or 1 retained Gaussian per atom)
+                ab = ctx.rng.choice([None, None, [round(10 ** ctx.rng.uniform(-0.5, 1.0), 4)], [0.4, 2.5, 11.0]]) if split2 else None
+                V = RP.solve_poisson_robust(mg, vals, inv, np.array(atnums), np.array(centers), split2=split2, alphas_basis=ab, **kw)
+            finally:
+                for k, v in saved.items():
+                    setattr(RP, k, v)
+            key = "robust_poisson.solve_poisson_robust:" + ("split2" if split2 else "split1")
+            params = [cb.load_atomic_gaussian_params(int(z)) for z in atnums]
+            after1 = seen["fit_in"] if split2 else seen["args"][1]
+            if seen["args"][0] is not mg or seen["args"][2] is not inv or seen["args"][3] != kw:
+                ctx.fail("corr", key + ":call", "solve_poisson_bvp is not called with the caller's grid / transform / options", witness={"kw": seen["args"][3]})
+            if split2 and (len(seen["args"][1]) != len(vals) or any(f2b(a) != f2b(b) for a, b in zip(seen["args"][1], seen["fit_out"][3]))):
+                ctx.fail("corr", key + ":call", "with split2 the array handed to solve_poisson_bvp is not the residual left by the fit")
+            js = sorted({0, len(vals) - 1} | {ctx.rng.randrange(len(vals)) for _ in range(6)})
+            lines, meta = [], []
+            for j in js:
+                cores = []
+                for (cs, als), c in zip(params, centers):
+                    rsq = float(np.sum((mg.points[j] - c) ** 2))
+                    lib = float(RP._build_core_density(mg.points[j:j + 1], c, cs, als)[0])
+                    cores.append(lib)
+                    lines.append(f"C16.core {f2b(rsq)} {fvec(cs)} {fvec(als)}")
+                    meta.append(("core", j, lib))
+                lines.append(f"C16.residual {f2b(vals[j])} {fvec(cores)}")
+                meta.append(("res", j, float(after1[j])))
+            for (what, j, impl), ans in zip(meta, driver_batch(lines)):
+                tag, t = _tok(ans)
+                m = t.flt()
+                ctx.count(["robust", what, case, j], nontrivial=True, tag=f"robust:{what}")
+                if not _feq(impl, m, rtol=1e-12 if what == "core" else 1e-15, scale=max(abs(impl), abs(float(vals[j])))):
+                    ctx.fail("corr", key + (":core-density" if what == "core" else ":residual"),
+                             f"{'_build_core_density' if what == 'core' else 'residual after split 1'} at grid point {j}: implementation {impl}, model {m}",
+                             witness={"point": j, "impl": impl, "model": m, "atnums": atnums})
+            pts = np.array([[ctx.rng.uniform(-3, 3) for _ in range(3)] for _ in range(4)])
+            tot = V(pts)
+            pots = [cb.coulomb_potential(pts, centers_s=np.tile(c, (len(cs), 1)), coeffs_s=cs, alphas_s=als, normalized=True) for (cs, als), c in zip(params, centers)]
+            vb = np.zeros(len(pts))
+            if split2 and len(seen["fit_out"][0]) > 0:
+                fc, fa, fcen, _ = seen["fit_out"]
+                vb = cb.coulomb_potential(pts, centers_s=fcen, coeffs_s=fc, alphas_s=fa, normalized=True)
+            vr = np.sin(np.sum(pts, axis=1))
+            # v_bonding as the model sees it: the potential of the returned Gaussians (any number of them); whether it is used is the generated `len(fit_coeffs) > 0`
+            nfit = len(seen["fit_out"][0]) if split2 else 0
+            out = driver_batch([f"C16.total {f2b(vb[j])} {f2b(vr[j])} {fvec([p[j] for p in pots])}" for j in range(len(pts))]
+                               + [f"C16.total2 {nfit} {f2b(vb[j])} {f2b(vr[j])} {fvec([p[j] for p in pots])}" for j in range(len(pts))])
+            for j, (ans, ans2) in enumerate(zip(out[:len(pts)], out[len(pts):])):
+                tag, t = _tok(ans)
+                m = t.flt()
+                m2 = _tok(ans2)[1].flt()
+                ctx.count(["robust", "total2", case, j, nfit], nontrivial=True, tag=f"robust:total:nfit={'0' if nfit == 0 else '1' if nfit == 1 else '>1'}")
+                if not _feq(tot[j], m2, rtol=1e-14):
+                    ctx.fail("corr", key + ":total", f"total_potential = {float(tot[j])}, statement-wise model (nfit = {nfit}) = {m2}",
+                             witness={"impl": float(tot[j]), "model": m2, "nfit": nfit, "v_core_parts": [float(p[j]) for p in pots], "v_bonding": float(vb[j]), "v_residual": float(vr[j])})
+                ctx.count(["robust", "total", case, j], nontrivial=True, tag="robust:total" + (":split2" if split2 else ""))
+                if not _feq(tot[j], m, rtol=1e-14):
+                    ctx.fail("corr", key + ":total", f"total_potential = {float(tot[j])}, model v_core + v_bonding + v_residual = {m}",
+                             witness={"impl": float(tot[j]), "model": m, "v_core_parts": [float(p[j]) for p in pots], "v_bonding": float(vb[j]), "v_residual": float(vr[j])})
+        except DriverError:
+            raise
+        except Exception as e:      # crash-proof: one case that raises must not hide what the other cases / parts find
+            _keep_exc(ctx, 'robust case', e)
+
+    _part(ctx, 'laplacian', lambda: _corr_laplacian(ctx))
+    _part(ctx, 'round3', lambda: _corr_round3(ctx, consts))
+    _raise_kept(ctx)
 
 
 # ----------------------------------------------------------------------------------------------
@@ -1995,13 +2459,35 @@ def _cases(ctx: Ctx, budget: str):
     cases = []
     base = {"atol_unit": ATOL_UNIT, "exact_core_atol": EXACT_CORE_ATOL, "linear_atol_unit": LINEAR_ATOL_UNIT, "lap_rtol": LAP_RTOL}
 
+    rep_no = [0]
+
     def add(key, **spec):
-        spec = {**base, **spec, "pseed": ctx.rng.randrange(10**6), "npseed": ctx.rng.randrange(10**6)}
+        spec = {**base, **spec, "pseed": ctx.rng.randrange(10**6), "npseed": ctx.rng.randrange(10**6), "_rep": rep_no[0]}
         cases.append((key, spec))
 
     Z = [0.0, 0.0, 0.0]
     rep = 12 if big else 1
-    for _ in range(rep):
+    for _rep in range(rep):
+        rep_no[0] = _rep
+        # ---- round 4, class 19: the returned potentials right next to the atomic centres (1e-12 .. 1e-6), where the interpolant divides by r.  Pristine accuracy
+        # measured on the pinned tree: include_origin=True flat to 1e-11 (<= 3e-3 of the threshold, 4e-2 at 1e-12); include_origin=False: the documented
+        # r_1 V(0) / r (part of the tolerance; molecular cases use a first radial point of 1e-10 and distances >= 1e-9: with 1e-11 solve_bvp stops with 'didn't converge' for 5 of 72 random molecules);
+        # molecular grids WITH the origin in the mesh are accurate too but take 25 .. 440 s (not run); the initial-value solver is off by 7 .. 60 x the
+        # threshold at 1e-5 and ~1/r below ("difficulty in capturing the origin region", documented): not asserted
+        cn = [round(ctx.rng.uniform(-1, 1), 3) for _ in range(3)]
+        add("poisson.solve_poisson_bvp:near-centre", kind="near", route="bvp", grid={**ctx.rng.choice([_g1, _g2])(ctx, deg=11), "rotate": ctx.rng.choice([0, ctx.rng.randrange(1, 10**6)])},
+            atoms=[cn], gauss=_centred(ctx, cn), options={"remove_large_pts": ctx.rng.choice([10.0, round(ctx.rng.uniform(10, 25), 2)])}, dlo=1e-12, dhi=1e-6)
+        add("robust_poisson.solve_poisson_robust:near-centre", kind="near", route="robust", grid=_g1(ctx, deg=11), atoms=[cn], symbols=["H"], atnums=[1],
+            gauss=[(round(ctx.rng.uniform(0.3, 1.0), 3), _alpha(ctx, 0.4, 3.0), cn)], split2=ctx.rng.random() < 0.5, options={"remove_large_pts": 10.0}, dlo=1e-12, dhi=1e-6)
+        atn_ = _molecule(ctx, ctx.rng.choice([2, 2, 3]))
+        gn_ = [(round(ctx.rng.choice([1, 1, -1]) * ctx.rng.uniform(0.4, 1.2), 3) if i else 1.0, _alpha(ctx, 0.5, 3.0), atn_[i]) for i in range(len(atn_))]
+        if big or ctx.rng.random() < 0.6:
+            add("poisson.solve_poisson_bvp:near-centre-molecular", kind="near", route="bvp", grid={**_g2(ctx, deg=11, n=ctx.rng.randrange(60, 81)), "rmin": 1e-10}, atoms=atn_, gauss=gn_,
+                options={"include_origin": False, "remove_large_pts": 10.0}, dlo=1e-9, dhi=1e-6, ndist=8)
+        else:
+            add("robust_poisson.solve_poisson_robust:near-centre-molecular", kind="near", route="robust", grid={**_g2(ctx, deg=11, n=ctx.rng.randrange(60, 81)), "rmin": 1e-10}, atoms=atn_[:2],
+                symbols=["H", "H"], atnums=[1, 1], gauss=[(round(ctx.rng.uniform(0.4, 1.0), 3), _alpha(ctx, 0.5, 2.5), atn_[0])], split2=False,
+                options={"include_origin": False, "remove_large_pts": 10.0}, dlo=1e-9, dhi=1e-6, ndist=8)
         # spherical, default options (origin added, remove_large_pts=1e6) -- tests' first parameter sets
         add("poisson.solve_poisson_bvp:atomic", kind="bvp", grid=_g1(ctx), atoms=[Z], gauss=_centred(ctx, Z),
             options=ctx.rng.choice([{}, {}, {"remove_large_pts": None}, {"remove_large_pts": round(ctx.rng.uniform(10, 25), 2)}]))
@@ -2030,7 +2516,7 @@ def _cases(ctx: Ctx, budget: str):
                 v *= min(0.5, 2.0 / a_l) * ctx.rng.uniform(0.3, 1.0) / np.linalg.norm(v)
                 cc = [round(float(x), 4) for x in (np.asarray(c) + v)]
             add("poisson.interpolate_laplacian:atomic", kind="laplacian", grid={**ctx.rng.choice([_g1, _g2])(ctx), "rotate": ctx.rng.choice([0, ctx.rng.randrange(1, 10**6)])},
-                atoms=[c], center=cc, shape=shape, a=a_l, cut=round(ctx.rng.uniform(0.05, 0.4), 3), near_default=True, options={})
+                atoms=[c], center=cc, shape=shape, a=a_l, cut=round(ctx.rng.uniform(0.05, 0.4), 3), near_default=True, cut2=float(f"{10 ** ctx.rng.uniform(-10, -7):.3e}"), options={})
         # molecular Laplacian: structural clause (sum over atoms of one-atom interpolants), atomic grids of equal / different sizes
         for natom in (2, 3):
             at = _molecule(ctx, natom)
@@ -2103,6 +2589,12 @@ def _cases(ctx: Ctx, budget: str):
         # (split2=True on a molecular grid is outside the envelope with a truncated ODE range: the unweighted greedy NNLS fit puts
         #  tens of units of charge on its most diffuse exponent 0.05, the remaining residual reaches beyond 20 bohr; measured on the
         #  pinned tree: error 0.2 with remove_large_pts=10, 1.4e-2 with 25 -- scope note in DESIGN 8.3)
+        # round 4, class 20: heteronuclear molecule (core models with different numbers of primitives per atom), density = the core model: zero residual, exact
+        # on any grid (observed 2.5e-10), both split options on the same tabulated array
+        hz = [ctx.rng.choice([("H", 1), ("C", 6), ("N", 7), ("O", 8), ("Cl", 17)]) for _ in range(2)]
+        add("robust_poisson.solve_poisson_robust:exact-core-molecular", kind="robust", grid=_g2(ctx, deg=ctx.rng.choice([7, 9]), n=ctx.rng.randrange(40, 61)), atoms=_molecule(ctx, 2),
+            symbols=[a for a, _ in hz], atnums=[b for _, b in hz], gauss=[], split2=ctx.rng.random() < 0.5, alphas_basis=[0.3, 1.0, 3.0, 9.0, 27.0],
+            options={"remove_large_pts": 10.0, "include_origin": False})
         # robust
         sym, zn = ctx.rng.choice([("H", 1), ("C", 6)])
         add("robust_poisson.solve_poisson_robust:exact-core", kind="robust", grid=_g1(ctx, deg=11), atoms=[Z], symbols=[sym], atnums=[zn], gauss=[],
@@ -2212,6 +2704,28 @@ def _inv_cases(ctx: Ctx, budget: str, only=None):
                                           "intervals": ([[ctx.rng.choice([990.0, 1010.0, 10.0, 1e5]), ctx.rng.choice([1e-5, 0.99e-5, 1.01e-5, 1e-3])]] if not big else
                                                         [[990.0, 1e-5], [1010.0, 1e-5], [10.0, 1e-5], [1e5, 1e-5], [1000, 0.99e-5], [1000, 1.01e-5], [1000, 1e-3]]),
                                           "dB": round(ctx.rng.choice([-1, 1]) * ctx.rng.uniform(0.3, 2.0), 3)}))
+    # ---- round 4: classes 14-18, 20 (see the docstring of inv_inner) ----
+    for rep in range(3 if big else 1):
+        d = round(ctx.rng.uniform(1.6, 2.4), 3)
+        out.append(("poisson:inner", {**base, "scenario": "inner", "grid": gi(), "grid_mol": {**GM, "n": ctx.rng.randrange(40, 51), "deg": 7},
+                                      "gauss": [(round(ctx.rng.uniform(0.5, 1.5), 3), al(), Z)], "center": [ctx.rng.choice([-0.75, -0.5, 0.25, 0.5, 1.0, -1.0, 2.0]) for _ in range(3)],
+                                      "kinds14": ["bvp", "ivp", "robust", "lap"] if big else ["bvp", ctx.rng.choice(["ivp", "robust", "lap"])], "all": big,
+                                      "atoms2": [Z, [d, 0.0, 0.0]] + ([[0.3 * d, 0.85 * d, 0.2]] if rep % 2 else []),
+                                      # unequal atomic grids, the smaller one first / in the middle (a slice computed from the first atom's size then has the wrong length)
+                                      "degs2": ctx.rng.choice([[5, 7], [5, 9]]) if not rep % 2 else ctx.rng.choice([[7, 5, 9], [5, 9, 7], [9, 5, 7]])}))
+    # ---- round 5: classes 21-26 (see the docstring of inv_blocks).  Cost measured on the pinned tree: one call with 2^19 + 1234 points on a degree-3 atomic
+    # grid takes 0.4 (bvp) .. 0.9 s (robust), so the sizes past 2^19 are in the quick tier ----
+    for rep in range(2 if big else 1):
+        d = round(ctx.rng.uniform(1.6, 2.4), 3)
+        k1, k2 = ctx.rng.randrange(1, 5000), ctx.rng.randrange(5001, 99999)
+        others = ["ivp", "robust", "lap", "bvp-molecular"]
+        ctx.rng.shuffle(others)
+        out.append(("poisson:blocks", {**base, "scenario": "blocks", "grid": {**GI, "n": ctx.rng.randrange(60, 81), "R": round(ctx.rng.uniform(18, 24), 2), "deg": 3},
+                                       "grid_mol": {**GM, "n": ctx.rng.randrange(30, 41), "deg": 3}, "gauss": [(round(ctx.rng.uniform(0.5, 1.5), 3), al(), Z)],
+                                       "center": [round(ctx.rng.uniform(-0.8, 0.8), 3) for _ in range(3)], "atoms2": [Z, [d, 0.0, 0.0]],
+                                       "sizes": sorted({1024, 1025, 4097, 20001, 65536, 65537, 2 ** 19 + k1} | ({4096, 2 ** 19, 2 ** 19 + k2, 2 ** 20, 2 ** 20 + 3} if big else set())),
+                                       "routes": ["bvp"] + (others if big else others[:3]), "big_routes": (["bvp"] + others) if big else ["bvp", others[0]],
+                                       "R_other": round(ctx.rng.uniform(0.7, 3.0), 3), "other_deg": 5, "n0": ctx.rng.randrange(50, 71), "order26": ctx.rng.choice([[0.0, 1e-6], [1e-6, 0.0]])}))
     for _, sp in out:
         sp["seed"] = ctx.rng.randrange(10**6)
     return [(k, sp) for k, sp in out if only is None or sp["scenario"] in only]
@@ -2260,15 +2774,15 @@ def oracle_at(ctx: Ctx, failure):
     obs = ctx.extra.setdefault("oracle_at_observed", [])
     done = ctx.extra.setdefault("oracle_at_done", [])
     if key.startswith("poisson.interpolate_laplacian"):
-        want, inv = ["poisson.interpolate_laplacian"], ["grid", "dtype", "mol", "special", "scale"]
+        want, inv = ["poisson.interpolate_laplacian"], ["grid", "dtype", "mol", "special", "scale", "inner", "blocks"]
     elif key.startswith("poisson.solve_poisson_ivp"):
-        want, inv = ["poisson.solve_poisson_ivp"], ["funcvals", "params", "grid", "dtype", "threshold", "scale", "special"]
+        want, inv = ["poisson.solve_poisson_ivp"], ["funcvals", "params", "grid", "dtype", "threshold", "scale", "special", "inner", "blocks"]
     elif key.startswith("robust_poisson"):
-        want, inv = ["robust_poisson"], ["funcvals", "dtype", "special", "translate"]
+        want, inv = ["robust_poisson"], ["funcvals", "dtype", "special", "translate", "inner", "blocks"]
     elif key.startswith("poisson.solve_poisson_bvp") or key.startswith("poisson:"):
         mol = ":molecular" in key or key.endswith((":slices", ":sum", ":atoms"))
         want = ["poisson.solve_poisson_bvp:molecular"] if mol else ["poisson.solve_poisson_bvp"]
-        inv = ["mol", "translate"] if mol else ["funcvals", "params", "grid", "extreme", "threshold", "special"]
+        inv = ["mol", "inner", "blocks", "translate"] if mol else ["funcvals", "params", "grid", "extreme", "threshold", "special", "inner", "blocks"]
         if key.endswith((":options", ":bd_cond", ":mesh", ":defaults")):
             inv = ["params", "extreme", "grid", "threshold", "special"]
     else:
@@ -2278,25 +2792,107 @@ def oracle_at(ctx: Ctx, failure):
         return
     done.append(tagk)
     cases = [(k, sp) for k, sp in _cases(ctx, "large") if any(k.startswith(w) for w in want) and k != "poisson.solve_poisson_ivp:high-l"]
-    # cheapest first, bounded
-    _run_cases(ctx, cases[:ctx.n(24, 60)], obs)
-    _run_inv_cases(ctx, _inv_cases(ctx, "small", only=inv), obs)
+    # first replicates, cheapest first, inside the wall-clock cap shared with the large-budget search
+    cases.sort(key=lambda c: (c[1].get("_rep", 0), _cost(c[0])))
+    for key, spec in cases[:ctx.n(24, 60)]:
+        if _search_left(ctx) <= SEARCH_CAP_S / 3 or len(_new_failure_keys(ctx)) >= STOP_AFTER:
+            break
+        _part(ctx, "oracle_at case " + key, lambda: _one_case(ctx, key, spec, obs))
+    for key, spec in _inv_cases(ctx, "small", only=inv):
+        if _search_left(ctx) <= SEARCH_CAP_S / 3 or len(_new_failure_keys(ctx)) >= STOP_AFTER:
+            break
+        _part(ctx, "oracle_at scenario " + key, lambda: _run_inv_cases(ctx, [(key, spec)], obs))
+    ctx.extra.pop("_kept_exc", None)
+
+
+# cost rank of an oracle case (seconds on the pinned tree, rounded up): the large budget runs the cheapest / most diverse first
+_COST = (("poisson.interpolate_laplacian:atomic", 1), ("poisson.solve_poisson_ivp:linearity", 1), ("poisson.solve_poisson_ivp", 1), ("robust_poisson.solve_poisson_robust:near-centre-molecular", 3),
+         ("near-centre-molecular", 4), ("near-centre", 1), ("poisson.interpolate_laplacian:molecular", 1), ("robust_poisson.solve_poisson_robust:exact", 1),
+         ("robust_poisson.solve_poisson_robust:residual", 1), ("robust_poisson.solve_poisson_robust:split2", 1), ("poisson.solve_poisson_bvp:atomic-offcentre-origin", 40),
+         ("poisson.solve_poisson_bvp:atomic", 2), ("poisson.solve_poisson_bvp:linearity", 3), ("poisson.solve_poisson_bvp:homogeneity", 3), ("robust_poisson", 3), ("poisson.solve_poisson_bvp:molecular", 5))
+SEARCH_CAP_S = 200.0        # wall-clock cap of the failing-input search (oracle_at + large budget) of one run
+STOP_AFTER = 3              # concrete failures (distinct keys) after which the search stops
+
+
+def _cost(key):
+    for k, c in _COST:
+        if k in key:
+            return c
+    return 3
+
+
+def _search_left(ctx: Ctx):
+    t0 = ctx.extra.setdefault("_search_t0", time.time())
+    return SEARCH_CAP_S - (time.time() - t0)
+
+
+def _new_failure_keys(ctx: Ctx):
+    kf = _known_keys()
+    return {f.key for f in ctx.failures if f.kind == "oracle" and f.key not in kf}
+
+
+def _one_case(ctx: Ctx, key, spec, obs):
+    t0 = time.time()
+    try:
+        got, thr, what = _run(spec)
+    except Exception as e:  # the library raised inside the envelope
+        ctx.fail("oracle", key, f"{type(e).__name__} inside the envelope: {str(e)[:160]}", witness=spec, snippet=_snippet(spec))
+        obs.append({"key": key, "error": type(e).__name__, "wall_s": round(time.time() - t0, 2)})
+        return
+    obs.append({"key": key, "observed": got, "threshold": thr, "wall_s": round(time.time() - t0, 2)})
+    ctx.tagc("oracle:" + key)
+    if what.startswith("scipy nnls stopped"):
+        # excused on molecular grids only (observed on the pinned tree); on atomic grids the fit never gave up, there it is a failure
+        ctx.tagc("oracle:nnls-gave-up")
+        if "molecular" in key:
+            ctx.info(f"{key}: {what}")
+        else:
+            ctx.fail("oracle", key, what + " -- on an atomic grid, where the pinned tree always returns an answer", witness=spec, snippet=_snippet(spec))
+        return
+    if not (got <= thr):
+        ctx.fail("oracle", key, f"{what}: {got:.3e} exceeds {thr:.3e}", witness={**spec, "observed": got, "threshold": thr}, snippet=_snippet(spec))
 
 
 def oracle(ctx: Ctx, budget: str):
     obs = ctx.extra.setdefault("oracle_observed", [])
     t_all = time.time()
-    _run_inv_cases(ctx, _inv_cases(ctx, budget), obs)
-    for key, spec in _cases(ctx, budget):
-        t0 = time.time()
-        try:
-            got, thr, what = _run(spec)
-        except Exception as e:  # the library raised inside the envelope
-            ctx.fail("oracle", key, f"{type(e).__name__} inside the envelope: {str(e)[:160]}", witness=spec, snippet=_snippet(spec))
-            obs.append({"key": key, "error": type(e).__name__, "wall_s": round(time.time() - t0, 2)})
-            continue
-        obs.append({"key": key, "observed": got, "threshold": thr, "wall_s": round(time.time() - t0, 2)})
-        ctx.tagc("oracle:" + key)
-        if not (got <= thr):
-            ctx.fail("oracle", key, f"{what}: {got:.3e} exceeds {thr:.3e}", witness={**spec, "observed": got, "threshold": thr}, snippet=_snippet(spec))
+    large = budget == "large"
+    # the case lists are built by consulting the library (radial shells of a grid): a failure there is a library failure, not a reason to stop
+    inv_cases, cases = [], []
+    try:
+        inv_cases = _inv_cases(ctx, budget)
+    except Exception as e:
+        ctx.fail("oracle", "poisson:scenarios:raises", f"building the invariance scenarios raised {type(e).__name__}: {str(e)[:160]}")
+    try:
+        cases = _cases(ctx, budget)
+    except Exception as e:
+        ctx.fail("oracle", "poisson:cases:raises", f"building the accuracy cases raised {type(e).__name__}: {str(e)[:160]}")
+    if not large:
+        _part(ctx, "oracle scenarios", lambda: _run_inv_cases(ctx, inv_cases, obs))
+        for key, spec in cases:
+            _part(ctx, "oracle case " + key, lambda: _one_case(ctx, key, spec, obs))
+        ctx.extra["oracle_wall_s"] = round(time.time() - t_all, 1)
+        _raise_kept(ctx)
+        return
+    # large budget (a proof obligation / the correspondence broke): first replicate of every kind of case, cheapest first, then the cheap scenarios, then the
+    # further replicates; the search stops after STOP_AFTER concrete failures or when the cap is used up
+    first = sorted([c for c in cases if c[1].get("_rep", 0) == 0], key=lambda c: _cost(c[0]))
+    rest = sorted([c for c in cases if c[1].get("_rep", 0) > 0], key=lambda c: (c[1].get("_rep", 0), _cost(c[0])))
+    order = ["extreme", "blocks", "threshold", "special", "scale", "translate", "params", "funcvals", "dtype", "mol", "grid", "inner"]
+    inv_first, seen = [], set()
+    for k, sp in sorted(inv_cases, key=lambda c: order.index(c[1]["scenario"]) if c[1]["scenario"] in order else 99):
+        (inv_first if sp["scenario"] not in seen else rest).append((k, sp))
+        seen.add(sp["scenario"])
+    ran = 0
+    for key, spec in first + inv_first + rest:
+        if _search_left(ctx) <= 0 or len(_new_failure_keys(ctx)) >= STOP_AFTER:
+            break
+        if "scenario" in spec:
+            _part(ctx, "oracle scenario " + key, lambda: _run_inv_cases(ctx, [(key, spec)], obs))
+        else:
+            _part(ctx, "oracle case " + key, lambda: _one_case(ctx, key, spec, obs))
+        ran += 1
+    ctx.info(f"failing-input search: {ran} of {len(cases) + len(inv_cases)} large-budget cases run in {time.time() - t_all:.0f} s "
+             f"(cap {SEARCH_CAP_S:.0f} s, stop after {STOP_AFTER} concrete failures)")
     ctx.extra["oracle_wall_s"] = round(time.time() - t_all, 1)
+    ctx.extra.pop("_kept_exc", None)
